@@ -1045,7 +1045,7 @@ func cmdC14(seed int64, tier, outDir string) {
 	corpus := []*c14CV{
 		c14CList("eager", c14CInt(1)), c14CList("eager", c14CList("eager", c14CInt(1)), c14CList("eager", c14CInt(2))), // [1] ~ [[1],[2]]: error, an element equals x
 		c14CList("eager", c14CInt(2), c14CInt(3)), c14CList("eager", c14CInt(1), c14CInt(2), c14CInt(3)), // [2,3] ~ [1,2,3]: true (containment), no element equals x
-		c14CMap("listmap", "a", c14CInt(1), "b", c14CStr("x")), c14CMap("listmap", "b", c14CInt(1), "a", c14CInt(2)), // = false one way, error the other way
+		c14CMap("listmap", "a", c14CInt(1), "b", c14CStr("x")), c14CMap("listmap", "b", c14CInt(1), "a", c14CInt(2)), // = was false one way and an error the other way before the repair of Map.Equals (error both ways now)
 		c14CList("eager", c14CInt(1), c14CStr("a")), c14CList("lazy", c14CStr("a")), // [1,"a"] ~ ["a"]: false if materialised, error if lazy
 	}
 	seen := map[string]bool{}
